@@ -503,8 +503,8 @@ func runC02(h *H) {
 			h.DoRisky("json.unmarshal", sub, set, strconv.Itoa(k+h.Intn(3)*4))
 		}
 	}
-	runC02Any(h)   // c02any.go: whole documents into `var x any`
-	runC02Typed(h) // c02typed.go: typed targets with prior content
+	runC02Any(h)         // c02any.go: whole documents into `var x any`
+	runC02Typed(h)       // c02typed.go: typed targets with prior content
 	genCodecChoiceDec(h) // c01codecdec.go: which decoder a type gets (Unmarshaler detection, null handling)
 }
 
